@@ -295,6 +295,10 @@ func (i *interpreter) spawnThread(pos token.Pos, fn value, args []value, harness
 
 // killProcessThreads marks every thread started since UntilCrash began as dead.
 func (i *interpreter) killProcessThreads() {
+	// the dead process's file locks are gone with it
+	if l, ok := i.models["badgerlog"]; ok {
+		l.(*badgerLog).locks = nil
+	}
 	for _, t := range i.threads {
 		if t.id >= i.crashBase && t != i.crashOwner {
 			t.done = true
